@@ -167,7 +167,10 @@ var c08Layouts = []c08NamedLayout{
 var c08CertKinds = []string{"key:rsa1", "key:rsa1", "key:rsa3", "wrapped:rsa1", "key:ec0", "empty", "whitespace", "not-base64", "garbage-der", "truncated-der"}
 
 var c08Defects = []string{"none", "none", "conditions-expired", "not-yet-valid", "confirmation-expired", "assertion-issued-long-ago", "response-issued-long-ago",
-	"wrong-audience", "wrong-recipient", "wrong-in-response-to", "wrong-response-in-response-to", "wrong-issuer", "wrong-destination", "bad-status"}
+	"wrong-audience", "wrong-recipient", "wrong-in-response-to", "wrong-response-in-response-to", "wrong-issuer", "wrong-destination", "bad-status",
+	// the defect stays and unused namespace declarations named after the attribute in question, reading what would cure it, are added after signing
+	// (inside the plaintext, before whoever delivers it encrypts it to the SP)
+	"conditions-expired+declarations", "confirmation-expired+declarations", "wrong-recipient+declarations", "wrong-in-response-to+declarations"}
 
 var c08Ops = []string{"flip-data", "flip-data", "flip-key", "truncate-data", "truncate-data", "truncate-key", "swap-key", "swap-data", "remove-key", "two-keys",
 	"empty-cipher-value", "not-base64-cipher-value", "wrong-algorithm", "mis-keyed", "junk-plaintext", "key-as-direct-child"}
@@ -1059,6 +1062,13 @@ func c08ApplyDefect(w *c08World, s *RespSpec, defect string) {
 	a := &s.Assertions[0]
 	far := int64(3_600_000)
 	mid, mcs := w.k.MaxIssueDelayMs, w.k.MaxClockSkewMs
+	if strings.HasSuffix(defect, "+declarations") {
+		defect = strings.TrimSuffix(defect, "+declarations")
+		decls := []NSDecl{{On: "Conditions", Prefix: "NotOnOrAfter", Value: "@ms:86400000"}, {On: "Conditions", Prefix: "NotBefore", Value: "@ms:-86400000"},
+			{On: "SubjectConfirmationData", Prefix: "NotOnOrAfter", Value: "@ms:86400000"}, {On: "SubjectConfirmationData", Prefix: "Recipient", Value: spBase + "/saml/acs"},
+			{On: "SubjectConfirmationData", Prefix: "InResponseTo", Value: c08ReqID}}
+		s.NSDecls = decls
+	}
 	switch defect {
 	case "none":
 	case "conditions-expired":
